@@ -101,6 +101,12 @@ CLAIMED = {
    design="5/C16",
    note="Trusted: Convert.tla's Expressible table (from the libraries' APIs at the adapters' minimum versions), Sgr.tla, VtParser.tla, TLC; the third-party libraries' own renderers are the observation channel.",
    technique="TLA+ spec (Convert over VtParser+Sgr) + TLC trace validation of library renderings"),
+ "C15": dict(
+   level="model_checking",
+   text="Roff.tla derives the input's segments from the parser specification (style = strict SGR reading of the introducing sequence, text = what is printed until the next one) and states what the document must be, line by line: per segment .gcolor / .fcolor with the right names, the text block in \\fB / \\fI / roman per the bold-or-bright, italic, roman rule with roff escaping undone - and no other line may start with '.' or an apostrophe. Every document produced by to_roff(..).to_roff() for the single-segment space (17x17 colour pairs x effect subsets) and for seeded multi-segment texts over an alphabet of roff-special characters is validated by TLC.",
+   design="5/C15",
+   note="Trusted: Roff.tla, Sgr.tla, VtParser.tla, TLC. Domain as stated in the property. Open finding F16 (bold+dim in one sequence: cansi's single intensity field) reported from its witness.",
+   technique="TLA+ spec (Roff over VtParser+Sgr) + TLC trace validation of rendered documents"),
 }
 PENDING_REASON = "check not built yet in this revision of /verif (planned with the TLA+ specification, see DESIGN.md section 5); not claimed until its quick command exists"
 
